@@ -54,14 +54,39 @@ fn gen_pos_text(rng: &mut Rng) -> String {
   s
 }
 
-fn positions_case(rng: &mut Rng, n_texts: usize) -> Case {
+/// every text of at most 3 characters over {a, e-acute, astral, LF, CR, BOM}
+fn exhaustive_pos_texts() -> Vec<String> {
+  let alpha = ['a', 'é', '😀', '\n', '\r', '\u{feff}'];
+  let mut out = vec![String::new()];
+  let mut layer = vec![String::new()];
+  for _ in 0..3 {
+    let mut next = vec![];
+    for t in &layer {
+      for c in alpha {
+        let mut u = t.clone();
+        u.push(c);
+        next.push(u);
+      }
+    }
+    out.extend(next.iter().cloned());
+    layer = next;
+  }
+  out
+}
+
+fn positions_case(rng: &mut Rng, n_texts: usize, exhaustive: bool) -> Case {
+  let fixed = if exhaustive { exhaustive_pos_texts() } else { vec![] };
+  let n_texts = if exhaustive { fixed.len() } else { n_texts };
   let mut texts = vec![];
   let mut obs = vec![];
   let mut dist: Vec<(String, u64)> = vec![];
   let mut sample = String::new();
   let mut nontrivial = false;
-  for _ in 0..n_texts {
-    let t = gen_pos_text(rng);
+  for i in 0..n_texts {
+    let t = if exhaustive { fixed[i].clone() } else { gen_pos_text(rng) };
+    if exhaustive {
+      dist.push(("pos_texts_exhaustive_len_le3_over_6_chars".into(), 1));
+    }
     // new_with_indent_width does NOT strip a BOM (SourceTextInfo::new would), so text_lines'
     // own BOM handling is exercised
     let ti = SourceTextInfo::new_with_indent_width(
@@ -104,7 +129,7 @@ fn positions_case(rng: &mut Rng, n_texts: usize) -> Case {
   Case {
     input: Sx::L(vec![Sx::A(0), Sx::L(texts)]),
     obs: Sx::L(obs),
-    meta: serde_json::json!({"kind": "positions", "texts": n_texts, "first": sample}),
+    meta: serde_json::json!({"kind": "positions", "texts": n_texts, "first": sample, "exhaustive": exhaustive}),
     nontrivial,
     dist,
     direct_violations: vec![],
@@ -478,6 +503,23 @@ fn dynamic_kind_code(k: DynamicDependencyKind) -> u64 {
   }
 }
 
+/// 0 none, 1 exactly {type: "json"}, 2 unknown, 3 other known, 4 known and empty
+fn attr_code(a: &ImportAttributes) -> u64 {
+  match a {
+    ImportAttributes::None => 0,
+    ImportAttributes::Unknown => 2,
+    ImportAttributes::Known(m) => {
+      if m.is_empty() {
+        4
+      } else if m.len() == 1 && m.get("type") == Some(&ImportAttribute::Known("json".to_string())) {
+        1
+      } else {
+        3
+      }
+    }
+  }
+}
+
 struct Item {
   cat: u64,
   sub: u64,
@@ -490,13 +532,18 @@ fn flatten_info(info: &ModuleInfo) -> Vec<Item> {
   for d in &info.dependencies {
     match d {
       DependencyDescriptor::Static(s) => {
-        items.push(Item { cat: 0, sub: static_kind_code(s.kind), text: s.specifier.clone(), range: s.specifier_range });
+        items.push(Item {
+          cat: 0,
+          sub: static_kind_code(s.kind) + 16 * attr_code(&s.import_attributes),
+          text: s.specifier.clone(),
+          range: s.specifier_range,
+        });
         if let Some(t) = &s.types_specifier {
           items.push(Item { cat: 4, sub: 0, text: t.text.clone(), range: t.range });
         }
       }
       DependencyDescriptor::Dynamic(d) => {
-        let sub = dynamic_kind_code(d.kind);
+        let sub = dynamic_kind_code(d.kind) + 16 * attr_code(&d.import_attributes);
         match &d.argument {
           DynamicArgument::String(s) => items.push(Item { cat: 1, sub, text: s.clone(), range: d.argument_range }),
           DynamicArgument::Template(parts) => {
@@ -1106,7 +1153,7 @@ impl<'a> Gen<'a> {
     let script = self.ext == Ext::Cjs;
     let js_untyped = !ts;
     loop {
-      let form = self.rng.below(30);
+      let form = self.rng.below(37);
       let pragma = self.rng.chance(22);
       match form {
         // ---- static imports / exports
@@ -1116,11 +1163,11 @@ impl<'a> Gen<'a> {
             0 => (format!("import {};", raw), 0, true),
             1 => (format!("import d{} from {};", self.counter, raw), 0, false),
             2 => (format!("import * as ns{} from {};", self.counter, raw), 0, false),
-            3 => (format!("import {{ a as b{} }} from {} with {{ type: \"json\" }};", self.counter, raw), 0, false),
+            3 => (format!("import {{ a as b{} }} from {} with {{ type: \"json\" }};", self.counter, raw), 16, false),
             4 => (format!("export * from {};", raw), 5, false),
             5 => (format!("export * as e{} from {};", self.counter, raw), 5, false),
             6 => (format!("export {{ x as y{} }} from {};", self.counter, raw), 5, false),
-            _ => (format!("export {{ default as z{} }} from {} with {{ type: 'json' }};", self.counter, raw), 5, false),
+            _ => (format!("export {{ default as z{} }} from {} with {{ type: 'json' }};", self.counter, raw), 5 + 16, false),
           };
           let _ = side;
           if pragma {
@@ -1201,7 +1248,7 @@ impl<'a> Gen<'a> {
               format!("{}import({}).then((m) => m);", p, raw)
             }
             18 => {
-              self.expected.push((1, 0, cooked));
+              self.expected.push((1, 16, cooked));
               format!("const v{} = {}import({}, {{ with: {{ type: \"json\" }} }});", c, p, raw)
             }
             19 => {
@@ -1230,6 +1277,50 @@ impl<'a> Gen<'a> {
               self.expected.push((1, 3, cooked));
               // a comment on the line of the `{` would be a TRAILING comment of the brace (swc), so break the line
               format!("if (globalThis.k{}) {{{}  {}require({}); }}", c, self.nl, p, raw)
+            }
+          };
+          self.out.push_str(&text);
+          self.out.push_str(self.nl);
+          return;
+        }
+        // ---- phases and attribute shapes
+        30..=32 if !script => {
+          let (raw, cooked) = self.spec_literal();
+          let c = self.counter;
+          let (text, sub) = match form {
+            30 => (format!("import source w{} from {};", c, raw), 2),
+            31 => (format!("import defer * as n{} from {};", c, raw), 1),
+            _ => (format!("import j{} from {} with {{ type: \"json\", \"other\": 'x' }};", c, raw), 16 * 3),
+          };
+          if pragma {
+            let p = self.types_pragma(false);
+            self.out.push_str(&p);
+          }
+          self.out.push_str(&text);
+          self.out.push_str(self.nl);
+          self.expected.push((0, sub, cooked));
+          return;
+        }
+        33..=36 if !dts => {
+          let (raw, cooked) = self.spec_literal();
+          let p = if pragma { self.types_pragma(true) } else { String::new() };
+          let c = self.counter;
+          let text = match form {
+            33 => {
+              self.expected.push((1, 2, cooked));
+              format!("{}import.source({}).then((m) => m);", p, raw)
+            }
+            34 => {
+              self.expected.push((1, 1, cooked));
+              format!("const y{} = {}import.defer({});", c, p, raw)
+            }
+            35 => {
+              self.expected.push((1, 16 * 2, cooked));
+              format!("const z{} = (q) => {}import({}, {{ with: {{ ...q }} }});", c, p, raw)
+            }
+            _ => {
+              self.expected.push((1, 16 * 4, cooked));
+              format!("const o{} = {}import({}, {{ with: {{}} }});", c, p, raw)
             }
           };
           self.out.push_str(&text);
@@ -1531,12 +1622,12 @@ pub fn run(cfg: &RunCfg) {
   let seeds = seeds();
   let thorough = cfg.tier == Tier::Thorough;
   let regex_batch = 250usize;
-  let per_pragma: u64 = if thorough { 500_000 } else { 50_000 };
+  let per_pragma: u64 = if thorough { 150_000 } else { 50_000 };
   let pos_batch = 20usize;
   let p = Plan {
     n_corpus: corpus.len() as u64,
     n_seeds: seeds.len() as u64,
-    n_gen: if thorough { 100_000 } else { 6_000 },
+    n_gen: if thorough { 60_000 } else { 6_000 },
     n_regex_cases: 10 * per_pragma / regex_batch as u64,
     regex_batch,
     n_pos_cases: (if thorough { 200_000 } else { 20_000 }) / pos_batch as u64,
@@ -1566,7 +1657,7 @@ pub fn run(cfg: &RunCfg) {
     }
     k -= p.n_regex_cases;
     if k < p.n_pos_cases {
-      return positions_case(&mut rng, p.pos_batch);
+      return positions_case(&mut rng, p.pos_batch, k == 0);
     }
     lookup_case(&mut rng)
   });
